@@ -8,18 +8,24 @@ MANIFEST = dict(
    note="Trusted: Lean kernel; axioms propext/Classical.choice/Quot.sound only; Go's rune decoding of the tag (the model starts from []rune(tag)); unicode.IsSpace table as transcribed; the harness, matrix generator and comparer. The rule matrix is finite: the listed field types, one parameter per rule, pairs of rules (not longer tags), boundary probes only. Format rules (email/url/uuid/regex) are judged on blatant members/non-members. The documented meaning is this check's reading of docs/tags.md (required = presence).",
    design="DESIGN.md §5 C06")
 
-MODULES = ["Gozod.Proofs.C06"]
+MODULES = ["Gozod.Proofs.C06", "Gozod.Proofs.C06G"]
 THEOREMS = [
     "Gozod.C06.c06_no_panic", "Gozod.C06.c06_legacy_panics", "Gozod.C06.c06_parse_ws", "Gozod.C06.c06_rule_ws",
     "Gozod.C06.c06_parts_ws", "Gozod.C06.accept_pair", "Gozod.C06.accept_comm",
     "Gozod.C06.c06_table_covers_matrix", "Gozod.C06.c06_no_silent_noop_partial", "Gozod.C06.c06_pairs_partial",
     "Gozod.C06.c06_order_independent",
+    # type graphs (Proofs/C06G.lean)
+    "Gozod.C06.c06_graph_no_lazy_on_dag", "Gozod.C06.c06_graph_walk_is_spec", "Gozod.C06.c06_graph_partial",
+    "Gozod.C06.c06_graph_recursive_unchecked", "Gozod.C06.c06_graph_recursive_required_nil",
+    "Gozod.C06.c06_graph_nil_slice_rejected", "Gozod.C06.c06_graph_full_false", "Gozod.C06.c06_graph_map_recursion_diverges",
+    "Gozod.C06.c06_graph_table_is_model", "Gozod.C06.c06_graph_table_partial", "Gozod.C06.c06_graph_table_covers",
 ]
 # witnesses that the known-finding region is exact; they stop checking when the library is repaired
 W_MODULES = ["Gozod.Proofs.C06W"]
 W_THEOREMS = [
     "Gozod.C06W.c06_no_silent_noop_witnesses", "Gozod.C06W.c06_pairs_witnesses", "Gozod.C06W.c06_order_witnesses",
     "Gozod.C06W.c06_no_silent_noop_full_false", "Gozod.C06W.c06_order_independent_full_false",
+    "Gozod.C06W.c06_graph_table_witnesses", "Gozod.C06W.c06_graph_table_full_false",
 ]
 
 # ------------------------------------------------------------------------------------------------
@@ -193,6 +199,155 @@ def write_if_changed(path, content):
     return True
 
 # ------------------------------------------------------------------------------------------------
+# type graphs: root struct types whose type graph reaches tagged struct types through nested fields
+# (value, pointer, slice element, slice of pointers, map value, map of pointers, embedded), the same
+# type several times (siblings, T and *T and []T, under two branches), and recursive types (Lazy path).
+# Python only writes the Go declarations; the harness reads the type graph back by reflection
+# (`c06 genv`), and Gen/TagGraph.lean is rendered from what the harness observed.
+
+G_WRAPS = ["val", "ptr", "slice", "sliceptr", "map", "mapptr", "emb"]
+G_GO = {"val": "%s", "ptr": "*%s", "slice": "[]%s", "sliceptr": "[]*%s", "map": "map[string]%s", "mapptr": "map[string]*%s"}
+G_TAGS = {"val": ["required", None], "emb": ["required", None], "ptr": ["required", None], "map": ["required", None],
+          "mapptr": ["required", None], "slice": ["required", "max=2", None], "sliceptr": ["required", "max=2", None]}
+G_DEFTAG = {"val": "required", "emb": "required", "ptr": "required", "map": "required", "mapptr": "required",
+            "slice": "max=2", "sliceptr": "max=2"}
+LEAF = ("min=3", [])
+PLAIN = (None, [])
+
+def graph_roots():
+    """[(name, {local type name: (tag of V or None, [(field, wrap, target, tag)])}, crashes)] — the root is type "R"."""
+    out = []
+    def add(name, types, crash=False): out.append((name, types, crash))
+    for w in G_WRAPS:
+        for t in G_TAGS[w]:
+            add("single_%s_%s" % (w, (t or "untagged").replace("=", "")), {"R": ("min=3", [("X", w, "L", t)]), "L": LEAF})
+    for w in ("val", "ptr", "slice", "map"):
+        add("plain_%s" % w, {"R": ("min=3", [("X", w, "P", G_DEFTAG[w])]), "P": PLAIN})
+    for w1 in G_WRAPS:
+        for w2 in G_WRAPS:
+            if w1 == "emb" and w2 == "emb": continue
+            add("twice_%s_%s" % (w1, w2), {"R": ("min=3", [("X", w1, "L", G_DEFTAG[w1]), ("Y", w2, "L", G_DEFTAG[w2])]), "L": LEAF})
+    for ws in [("val", "val", "val"), ("val", "ptr", "slice"), ("ptr", "ptr", "ptr"), ("slice", "sliceptr", "map"),
+               ("emb", "val", "ptr"), ("map", "mapptr", "val"), ("sliceptr", "ptr", "val")]:
+        add("thrice_" + "_".join(ws), {"R": ("min=3", [("XYZ"[i], w, "L", G_DEFTAG[w]) for i, w in enumerate(ws)]), "L": LEAF})
+    # the same type under two branches
+    add("diamond_val", {"R": ("min=3", [("X", "val", "M", "required"), ("Y", "val", "M", "required")]),
+                        "M": ("min=3", [("L", "val", "L", "required")]), "L": LEAF})
+    add("diamond_ptr_slice", {"R": (None, [("X", "ptr", "M", "required"), ("Y", "slice", "M", "max=2")]),
+                              "M": ("min=3", [("L", "ptr", "L", "required"), ("K", "slice", "L", "max=2")]), "L": LEAF})
+    add("branches_two_mids", {"R": ("min=3", [("X", "val", "M1", "required"), ("Y", "val", "M2", "required")]),
+                              "M1": ("min=3", [("L", "val", "L", "required")]), "M2": (None, [("L", "ptr", "L", "required")]), "L": LEAF})
+    add("deep_then_shallow", {"R": ("min=3", [("X", "val", "A", "required"), ("Y", "val", "L", "required")]),
+                              "A": ("min=3", [("B", "val", "B", "required")]), "B": ("min=3", [("L", "val", "L", "required")]), "L": LEAF})
+    add("shallow_then_deep", {"R": ("min=3", [("Y", "val", "L", "required"), ("X", "val", "A", "required")]),
+                              "A": ("min=3", [("B", "ptr", "B", "required")]), "B": ("min=3", [("L", "slice", "L", "max=2")]), "L": LEAF})
+    add("mids_in_containers", {"R": ("min=3", [("X", "slice", "M", "max=2"), ("Y", "map", "M", "required"), ("Z", "val", "M", "required")]),
+                               "M": ("min=3", [("L", "val", "L", "required"), ("K", "sliceptr", "L", "max=2")]), "L": LEAF})
+    add("untagged_branch", {"R": ("min=3", [("X", "val", "M", None), ("Y", "val", "M", "required")]),
+                            "M": ("min=3", [("L", "val", "L", "required")]), "L": LEAF})
+    # recursive types (the Lazy path)
+    add("rec_ptr_required", {"R": ("min=3", [("Next", "ptr", "R", "required")])})
+    add("rec_ptr_untagged", {"R": ("min=3", [("Next", "ptr", "R", None)])})
+    add("rec_sliceptr", {"R": ("min=3", [("Kids", "sliceptr", "R", "max=2")])})
+    add("rec_slice", {"R": ("min=3", [("Kids", "slice", "R", "max=2")])})
+    add("rec_slice_required", {"R": ("min=3", [("Kids", "slice", "R", "required")])})
+    add("rec_with_siblings", {"R": ("min=3", [("Kids", "sliceptr", "R", "max=2"), ("L1", "val", "L", "required"), ("L2", "ptr", "L", "required")]), "L": LEAF})
+    add("rec_mutual_slice", {"R": ("min=3", [("Bs", "slice", "B", "max=2")]), "B": ("min=3", [("As", "slice", "R", "max=2")])})
+    add("rec_mutual_ptr", {"R": ("min=3", [("B", "ptr", "B", "required")]), "B": ("min=3", [("A", "ptr", "R", "required"), ("Ks", "slice", "B", "max=2")])})
+    add("rec_below_root", {"R": ("min=3", [("X", "val", "T", "required"), ("Y", "val", "T", "required")]),
+                           "T": ("min=3", [("Kids", "slice", "T", "max=2")])})
+    # recursion through a map value / a map of pointers: FromStruct itself does not return
+    add("rec_map", {"R": ("min=3", [("M", "map", "R", "required")])}, True)
+    add("rec_mapptr", {"R": ("min=3", [("M", "mapptr", "R", "required")])}, True)
+    add("rec_map_below", {"R": ("min=3", [("X", "val", "T", "required")]), "T": ("min=3", [("M", "map", "T", "required")])}, True)
+    return out
+
+def go_graph(roots):
+    q = json.dumps
+    L = ["// Code generated by vlib/c06.py (type graphs of nested / repeated / recursive struct types); DO NOT EDIT.", "", "package main", ""]
+    reg = ["var graphRoots = []graphRoot{"]
+    for k, (name, types, crash) in enumerate(roots):
+        gn = lambda loc: "G%d%s" % (k, loc)
+        for loc, (vtag, fields) in types.items():
+            L.append("type %s struct {" % gn(loc))
+            L.append("\tV int" + (" `gozod:%s`" % q(vtag) if vtag else ""))
+            for fname, wrap, target, tag in fields:
+                t = (" `gozod:%s`" % q(tag)) if tag else ""
+                if wrap == "emb":
+                    L.append("\t%s%s" % (gn(target), t))
+                else:
+                    L.append("\t%s %s%s" % (fname, G_GO[wrap] % gn(target), t))
+            L.append("}")
+        L.append("")
+        reg.append("\t{Name: %s, Crash: %s, Mk: mkGraph[%s]}," % (q(name), "true" if crash else "false", gn("R")))
+    reg.append("}")
+    return "\n".join(L + reg) + "\n"
+
+GEN_GO_GRAPH = os.path.join(C.HARNESS, "cmd", "c06", "zz_graph.go")
+GEN_LEAN_GRAPH = os.path.join(C.LEAN, "Gozod", "Gen", "TagGraph.lean")
+
+def lean_env(tok):
+    """`m3;val:1:r;ptr:1:r/m3` -> Lean literal of Tags.Graph.Env"""
+    ds = []
+    for d in tok.split("/"):
+        parts = d.split(";")
+        v = parts[0]
+        vmin = "none" if v == "u" else "some %s" % v[1:]
+        es = []
+        for e in parts[1:]:
+            w, t, tag = e.split(":")
+            tg = {"r": ".required", "n": ".none"}.get(tag) or (".maxLen %s" % tag[1:])
+            es.append("⟨.%s, %s, %s⟩" % (w, t, tg))
+        ds.append("⟨%s, [%s]⟩" % (vmin, ", ".join(es)))
+    return "[" + ", ".join(ds) + "]"
+
+def lean_gval(toks):
+    """prefix tokens -> (Lean literal, rest)"""
+    t = toks[0]
+    if t == "nil": return ".nil", toks[1:]
+    if t == "node":
+        v, n = int(toks[1]), int(toks[2]); rest = toks[3:]; kids = []
+        for _ in range(n):
+            k, rest = lean_gval(rest); kids.append(k)
+        return ".node %s [%s]" % (v if v >= 0 else "(%d)" % v, ", ".join(kids)), rest
+    if t == "list":
+        n = int(toks[1]); rest = toks[2:]; xs = []
+        for _ in range(n):
+            k, rest = lean_gval(rest); xs.append(k)
+        return ".list [%s]" % ", ".join(xs), rest
+    raise ValueError(toks[:3])
+
+def graph_table_from(ops, impl):
+    rows, order = {}, []
+    for o, i in zip(ops, impl):
+        t = C.op_body(o).split(" ")
+        if len(t) < 3 or t[0] != "c06": continue
+        if t[1] == "genv":
+            rows[t[2]] = dict(env=i, built=None, probes=[]); order.append(t[2])
+        elif t[1] == "gbuild":
+            rows[t[2]]["built"] = (i == "built")
+        elif t[1] == "graph":
+            g, rest = lean_gval(t[4:])
+            rows[t[2]]["probes"].append("(%s, %s)" % (g, {"1": ".acc", "0": ".rej"}.get(i, ".fail")))
+    L = ["-- REGENERATED on every `./check C06` run by vlib/c06.py: type graphs read back by reflection from the generated",
+         "-- Go struct types, and the verdict of gozod.FromStruct[Root]().Parse on every probe value. DO NOT EDIT.",
+         "import Gozod.Model.TagGraph", "namespace Gozod.Gen", "open Gozod.Tags.Graph", ""]
+    for k, name in enumerate(order):
+        r = rows[name]
+        L.append("def graphRow%d : GRow where" % k)
+        L.append("  name := %s" % json.dumps(name))
+        L.append("  env := %s" % lean_env(r["env"]))
+        L.append("  built := %s" % ("true" if r["built"] else "false"))
+        L.append("  probes := [")
+        L.append(",\n".join("    " + p for p in r["probes"]))
+        L.append("  ]")
+        L.append("")
+    L.append("def graphTable : List GRow := [%s]" % ", ".join("graphRow%d" % k for k in range(len(order))))
+    L.append("")
+    L.append("end Gozod.Gen")
+    return "\n".join(L) + "\n"
+
+# ------------------------------------------------------------------------------------------------
 # Gen/TagTable.lean
 
 def lean_rule(tok):
@@ -249,6 +404,7 @@ def run_harness(res, prop="C06"):
     blocks, err = build_matrix(C.REPO)
     if blocks is None: return None, err
     write_if_changed(GEN_GO, go_matrix(blocks))
+    write_if_changed(GEN_GO_GRAPH, go_graph(graph_roots()))
     ok, out = C.build_harness(prop)
     if not ok: return None, "harness does not build against the current tree:\n" + out[-4000:]
     rundir = os.path.join(C.BUILD, "run", "%s-%s-%d" % (prop, res.tier, os.getpid()))
@@ -305,6 +461,11 @@ def make_key(ops, impl, model):
                             return "cell:rule=%s,fty=%s" % (n, fty)
             a, b = sorted(names, key=lambda n: FORMAT_FIRST.index(n.split("@")[0]) if n.split("@")[0] in FORMAT_FIRST else 99)
             return "pair:rules=%s+%s,fty=%s" % (a, b, fty)
+        if t[1] == "graph":
+            # accepted/rejected by the implementation; which corruption; under which kind of edge (fwd / back / untagged)
+            return "graph:%s:%s" % ({"1": "accepted", "0": "rejected"}.get(im, re.split(r"[:_]", im)[0]), t[3])
+        if t[1] == "gbuild":
+            return "gbuild:%s:%s" % (im, t[2])
         if t[1] == "tag":
             if im.startswith("panic"): return "tagparser:panic"
             if im.endswith("ws=0"): return "tagparser:whitespace"
@@ -316,6 +477,8 @@ def describe(op):
     t = C.op_body(op).split(" ")
     if t[1] == "cell":
         return "type M struct{ F <type> `gozod:\"<tag>\"` }; gozod.FromStruct[M]().Parse(M{F: <probe>}) — type/tag in the op comment; probe n:<2*value> s:<kind>:<bytes> e:<elements> nil; 1 = no issue on F"
+    if t[1] in ("graph", "gbuild", "genv"):
+        return "the Go expression in the op comment (struct types: harness/cmd/c06/zz_graph.go, root %s); value tokens: nil | node <V> <n> kid*n | list <n> elem*n" % t[2]
     return "tagparser.New().ParseTagString(<tag in the op comment>)"
 
 def witness_audit(res, proofs_ok):
@@ -347,6 +510,12 @@ def _run(res):
     ops, impl, stats, blocks, rundir = got
     changed = write_if_changed(GEN_LEAN, table_from(ops, impl, blocks))
     if changed: res.notes.append("Gen/TagTable.lean changed and was rewritten")
+    try:
+        gtxt = graph_table_from(ops, impl)
+    except (ValueError, KeyError, IndexError) as e:
+        C.tie_broken(res, "translator C06/TagGraph", "cannot render Gen/TagGraph.lean from the harness output: %r" % (e,))
+        return res.finish()
+    if write_if_changed(GEN_LEAN_GRAPH, gtxt): res.notes.append("Gen/TagGraph.lean changed and was rewritten")
     ok, detail = C.prove(res, MODULES, THEOREMS)
     # the driver (spec oracle + parser model) is needed even when a proof over the table broke
     if not ok:
@@ -367,7 +536,7 @@ def _run(res):
             m = model[i].split("\t")[0]
             good = (not impl[i].startswith("panic")) and impl[i].endswith("ws=1")
             model[i] = m + "\t" + (impl[i] if good else m)
-        elif o.startswith("c06 tablesum"):
+        elif o.startswith("c06 tablesum") or o.startswith("c06 genv"):
             model[i] = model[i].split("\t")[0] + "\t" + impl[i]      # a difference is drift of the regenerated table
     C.decide(res, "C06", (ops, impl, model, stats), make_key(ops, impl, model), "C06/matrix+tagparser", describe=describe)
     if not ok and not res.violations:
